@@ -167,6 +167,11 @@ class ExternalVariableCollector(NodeVisitor):
         self.vardoc = {}
         self.provenance = {v: "closure" for v in closure_vars}
         self.funcnames = set()
+        # Names read in the annotations of local variables, and names read
+        # anywhere else
+        self.ann_used = set()
+        self.real_used = set()
+        self._in_local_ann = False
         self.visit(tree)
         self.used -= self.funcnames
 
@@ -174,9 +179,26 @@ class ExternalVariableCollector(NodeVisitor):
         self.funcnames.add(node.name)
         self.generic_visit(node)
 
+    def visit_AnnAssign(self, node):
+        self.visit(node.target)
+        if isinstance(node.target, ast.Name):
+            # Python never evaluates this annotation
+            self._in_local_ann = True
+            try:
+                self.visit(node.annotation)
+            finally:
+                self._in_local_ann = False
+        else:
+            self.visit(node.annotation)
+        if node.value is not None:
+            self.visit(node.value)
+
     def visit_Name(self, node):
         if isinstance(node.ctx, ast.Load):
             self.used.add(node.id)
+            (self.ann_used if self._in_local_ann else self.real_used).add(
+                node.id
+            )
         else:
             if node.lineno in self.comments:
                 self.vardoc[node.id] = self.comments[node.lineno]
@@ -235,6 +257,7 @@ class PteraTransformer(NodeTransformer):
         self.assigned = evc.assigned
         self.free = evc.free
         self.external = evc.used - evc.assigned - evc.free
+        self.annotation_only = evc.ann_used - evc.real_used
         self.provenance = evc.provenance
         for ext in self.external:
             self.provenance[ext] = "external"
@@ -400,6 +423,11 @@ class PteraTransformer(NodeTransformer):
             self.annotated[target.id] = self._evaluate(ann)
             self.linenos[target.id] = target.lineno
         ann_arg = ann if ann else ast.Constant(value=None)
+        if ann and self._evaluate(ann) is ABSENT:
+            # The annotation cannot be evaluated (a name that only exists
+            # for type checkers, for instance). Python itself never evaluates
+            # the annotations of local variables: neither must the variant
+            ann_arg = ast.Constant(value=None)
         value_arg = self._get("ABSENT") if value is None else value
         pre = []
         subscripted = None
@@ -609,10 +637,15 @@ class PteraTransformer(NodeTransformer):
                 ),
                 orig=node,
             )
-            if not self.should_instrument(external):
-                # Nobody can provide a value for this name: only bind it if
-                # it is defined, so that using an undefined name remains a
-                # NameError instead of handing out the ABSENT marker
+            if (
+                not self.should_instrument(external)
+                or external in self.annotation_only
+            ):
+                # Nobody can provide a value for this name, or it is only
+                # mentioned in annotations that Python never evaluates: only
+                # bind it if it is defined, so that using an undefined name
+                # remains a NameError instead of handing out the ABSENT
+                # marker, and not using it remains no error at all
                 fetch = [
                     ast.If(
                         test=ast.Compare(
